@@ -42,6 +42,7 @@ def Live (src : List Byte) (pos : Nat) (s2 : S2) (s1 : S1) : Prop :=
   | .str _ => s1.sbuf = strContent src pos s2 ∧ (s2.buf = [] → s2.tokenStart ≤ pos) ∧ s2.carry = []
   | .esc => s1.sbuf = s2.buf ∧ s2.carry = []
   | .rune => s1.sbuf = s2.buf ∧ s2.carry = []
+  | .chrStart => s2.carry = [] ∧ s2.tokenStart = pos
   | .plain _ => s2.carry = []
 
 /-- L2 state `s2`, at offset `pos` of the block `src` that starts at byte `base` of the text,
@@ -101,6 +102,9 @@ theorem plain_sim (T : Tables) (src : List Byte) (pos : Nat) (b : Byte) (rest : 
     | startStr m =>
       refine ⟨by simp [hc], ?_⟩
       intro _; simp [Live, hcarry, strContent, slice_self]
+    | startChar =>
+      refine ⟨by simp [hc], ?_⟩
+      intro _; simp [Live, hcarry]
     | raise => exact sim'_fail _ _ _ _ _ hc
     | bad => exact sim'_fail _ _ _ _ _ hc
 
@@ -257,6 +261,26 @@ theorem rune_sim (T : Tables) (src : List Byte) (pos : Nat) (b : Byte)
         intro _; simp [Live, hcarry, hbuf, hm1, hm2]
 
 
+/-- the byte directly behind `#\` -/
+theorem chrStart_sim (T : Tables) (src : List Byte) (pos : Nat) (b : Byte) (rest : List Byte)
+    (s2 : S2) (s1 : S1)
+    (hp : src.drop pos = b :: rest) (hc : s1.core = s2.core) (hcarry : s2.carry = []) (hts : s2.tokenStart = pos) :
+    Sim' src (pos + 1) (chrStartStep2 T s2 b) (chrStartStep1 T s1 b) := by
+  unfold chrStartStep2 chrStartStep1
+  cases hl : lookup? T .chrStart b with
+  | none => exact sim'_fail _ _ _ _ _ hc
+  | some a =>
+    simp only []
+    by_cases h1 : a = .charFirst
+    · simp only [h1, if_true]
+      refine ⟨hc, ?_⟩
+      intro _
+      simp [Live, hcarry, hts, slice_one src pos b rest hp]
+    · simp only [h1, if_false]
+      by_cases h3 : a = .raise
+      · simp only [h3, if_true]; exact sim'_fail _ _ _ _ _ hc
+      · simp only [h3, if_false]; exact sim'_fail _ _ _ _ _ hc
+
 /-- the byte switch: one byte in any mode -/
 theorem body_sim (T : Tables) (cfg : Cfg) (src : List Byte) (pos : Nat) (b : Byte) (rest : List Byte)
     (s2 : S2) (s1 : S1)
@@ -281,6 +305,9 @@ theorem body_sim (T : Tables) (cfg : Cfg) (src : List Byte) (pos : Nat) (b : Byt
   | rune =>
     simp only [hm2] at hrest
     exact rune_sim T src pos b s2 s1 hc hm1 hm2 hrest.1 hrest.2
+  | chrStart =>
+    simp only [hm2] at hrest
+    exact chrStart_sim T src pos b rest s2 s1 hp hc hrest.1 hrest.2
 
 theorem oneCheck_halt_none (cfg : Cfg) (pos : Nat) (b : Byte) (c : Core)
     (h : (oneCheck cfg pos b c).halt = none) : c.halt = none ∧ oneCheck cfg pos b c = c := by
@@ -393,6 +420,10 @@ theorem endBlock_sim (src next : List Byte) (base : Nat) (s2 : S2) (s1 : S1)
       simp only [hm2] at hrest
       refine ⟨by simp [hc], by simp [hpos], ?_⟩
       intro _; simp [Live, hm1, hm2, hrest]
+    | chrStart =>
+      simp only [hm2] at hrest
+      refine ⟨by simp [hc], by simp [hpos], ?_⟩
+      intro _; simp [Live, hm1, hm2, hrest]
 
 theorem finishCore_tok_irrel (T : Tables) (cfg : Cfg) (c : Core) (m : Mode) (t1 t2 : List Byte)
     (h : ∀ t, m = .tok t → t1 = t2) : finishCore T cfg c m t1 = finishCore T cfg c m t2 := by
@@ -402,6 +433,7 @@ theorem finishCore_tok_irrel (T : Tables) (cfg : Cfg) (c : Core) (m : Mode) (t1 
   | str m => cases m <;> rfl
   | esc => rfl
   | rune => rfl
+  | chrStart => rfl
 
 /-- end of input on the last block -/
 theorem finish_sim (T : Tables) (cfg : Cfg) (src : List Byte) (base : Nat) (s2 : S2) (s1 : S1)
